@@ -264,6 +264,21 @@ class AsyncFIXConnection:
                         "Initiator is waiting for Logon() response, you must not send"
                         " any additional messages before acceptor responce."
                     )
+            elif (
+                self._connection_state
+                in {
+                    ConnectionState.LOGON_INITIAL_SENT,
+                    ConnectionState.LOGON_INITIAL_RECV,
+                    ConnectionState.LOGON_RESPONSE,
+                    ConnectionState.WAITING_FOR_LOGON,
+                }
+                and msg.msg_type != FMsg.LOGON
+                and msg.msg_type != FMsg.LOGOUT
+            ):
+                raise FIXConnectionError(
+                    "Logon() exchange is not completed, only Logon()/Logout() messages"
+                    f" are allowed, got {repr(msg)}"
+                )
 
         if msg.msg_type == FMsg.TESTREQUEST and self._test_req_id is None:
             raise FIXConnectionError(
